@@ -30,6 +30,6 @@ def run(tier, seed, replay=None):
                       rule='random signatures (1-4 named parameters, +-self, defaults, keyword-only, rarely **kwargs) x Parameter '
                            'configurations (value_type, harness validator chains incl. chains with the first rejection at a chosen '
                            'position, required, default, harness external source / environment variable) x strict x ignore_input x '
-                           '3 return_as modes x sync/async x calls (valid 88%, malformed 12%: surplus, too many, duplicate, undeclared, '
-                           'no Parameter) + a slice of the call-style matrix; distinct = whole case; non-trivial = at least one '
+                           '3 return_as modes x sync/async x calls (valid 88%, malformed 12%: surplus keyword, too many positionals, duplicate, '
+                           'Parameter the function lacks, name declared twice, no Parameter, strict with one undeclared argument) + a slice of the call-style matrix; distinct = whole case; non-trivial = at least one '
                            'Parameter and at least one supplied or external value')
